@@ -1427,6 +1427,49 @@ def rules(rep, m):
             else:
                 r11.ok()
 
+    # R-C18-12 -----------------------------------------------------------
+    r12 = rep.rule("R-C18-12", "the running extremes of a dataset are each updated with every sample, independently of one "
+                   "another: the update of the minimum does not depend on the outcome of the maximum test (and vice versa) - "
+                   "the first sample is both, as the extremes start at +/-DBL_MAX; five-number summaries and auto-scaled "
+                   "histograms read these fields", floor=1)
+    da = m.need("cmb_dataset_add")
+    dcx = FuncCtx(m, da)
+    xn = da.params[1]["name"]
+    r12.instance("%s: extremes updated with '%s'" % (da.name, xn))
+
+    def upd_conds(field, op):
+        """conditions (besides its own comparison) under which some update of the field with the sample executes; None if
+        there is no such update"""
+        rop = {">": "<", "<": ">"}[op]
+        best = None
+        for l, r_, k_, n_ in inv.stores(da):
+            lc = dcx.canon(l)
+            if not lc.endswith("->" + field) or r_ is None:
+                continue
+            v = dcx.canon(r_)
+            own = ("(%s %s %s)" % (xn, op, lc), "(%s %s %s)" % (lc, rop, xn))
+            tern = re.fullmatch(r"\(\(%s %s (.+)\) \? %s : \1\)" % (xn, op, xn), v) or \
+                re.fullmatch(r"\(\((.+) %s %s\) \? %s : \1\)" % (rop, xn, xn), v)
+            conds = [cd for cd in inv.dominating_conditions(dcx, da, n_) if cd not in own]
+            if tern or (v == xn and len(conds) < len(inv.dominating_conditions(dcx, da, n_))):
+                if best is None or len(conds) < len(best):
+                    best = conds
+        return best
+    for field, op, other in (("max", ">", "min"), ("min", "<", "max")):
+        cds = upd_conds(field, op)
+        if cds is None:
+            rep.finding(r12, da.name, "extreme:not-updated:" + field, "%s does not update %s with the new sample" % (da.name, field),
+                        where=m.rel(da.where))
+            r12.fail()
+        elif any(("->" + other) in cd for cd in cds):
+            rep.finding(r12, da.name, "extreme:dependent:" + field, "%s updates %s only under %s: a sample that is a new %s is not "
+                        "considered for the %s - the first sample of a dataset is both (the extremes start at -DBL_MAX / "
+                        "DBL_MAX), so data that begin with their smallest (largest) value report a wrong extreme"
+                        % (da.name, field, cds, other, field), where=m.rel(da.where))
+            r12.fail()
+        else:
+            r12.ok()
+
 
 def run(tier="quick"):
     models = common.load_models(tier)
